@@ -116,6 +116,7 @@ def c11(A, ctx, tier):
 def c12(A, ctx, tier):
     plumb.r_ovr(A, ctx, {})
     plumb.r_labelkind(A, ctx, {})
+    plumb.r_classifkind(A, ctx, {})
     ctx.assume("probability normalisation/monotonicity (sklearn mix-ins, softmax) are "
                "runtime behaviour and not decided")
     return dict(explanation="one-vs-rest assembly gathers every fitted attribute from the "
@@ -188,6 +189,7 @@ def c16(A, ctx, tier):
     extents.r_idx(A, ctx, dict(floor=3, floor_typed=3), rule="R-IDX-ALPHAMAX",
                   select=lambda f: f.name == "alpha_max" or f.name.startswith("_alpha_max"))
     critical.r_critical(A, ctx, dict(floor=4))
+    blockpen.r_alphamax_positive(A, ctx, dict(floor=20))
     ctx.assume("that a fit slightly below alpha_max is non-zero is numerical and not decided")
     return dict(explanation="critical strength: alpha_max helpers exclude zero weights "
                 "before dividing; a solver that fits an intercept cannot exit at w = 0 "
